@@ -16,6 +16,13 @@ from .astspec import (Node, NodeList, Cond, LoopH, Trace, Event, trk, trlk, ev, 
                       lemma_instances_app, unfold_list, unfold_node, LVar, BExpr)
 from .c04 import DOM, IDS, num, dep, graph_axioms, ID2STMT
 
+def _empty_only(a, k):
+    """set() - the model is the empty set; set(<something>) is another value"""
+    if a or k:
+        raise Unsupported("set(...) with arguments")
+    return None
+
+
 PROP = "C05"
 REL = "dagrt/codegen/dag_ast.py"
 
@@ -313,7 +320,7 @@ class CreateAst(FunctionContract):
         NODE_CLASSES, sorted=VFunc("sorted", self.m_sorted),
         conditional_to_ast=VFunc("conditional_to_ast", self.m_loop_to_ast),
         simplify_ast=VFunc("simplify_ast", self.m_simplify),
-        set=VFunc("set", lambda ctx, it, a, k: ctx.alloc(empty_set(TSet(ID))))))
+        set=VFunc("set", lambda ctx, it, a, k: _empty_only(a, k) or ctx.alloc(empty_set(TSet(ID))))))
 
     # ---- DFS invariant (Appendix B3) -----------------------------------------------------
     def done(self, s, x):
